@@ -5,7 +5,7 @@ import os, subprocess, re
 VERIF = os.path.dirname(os.path.dirname(os.path.abspath(__file__)))
 CRATE = os.path.join(VERIF, "harness", "slicereplay")
 TDIR = os.path.join(VERIF, ".build", "slicereplay")
-ACCEPT = {"C05": ("C05",), "C13": ("C13", "C05"), "C20": ("C20",), "C01": ("C01",), "C03": ("C03",)}
+ACCEPT = {"C05": ("C05",), "C13": ("C13", "C05"), "C20": ("C20",), "C01": ("C01",), "C03": ("C03",), "C18": ("C18",)}
 _memo = {}
 
 
